@@ -36,7 +36,7 @@ type c08Lane struct {
 	DiscExpiryS int  `json:"disconnect_expiry_s,omitempty"`
 	TKClean     bool `json:"takeover_clean,omitempty"` // ending disc0_takeover: Clean Start of the connection that takes over
 	// Then (after = resume): what becomes of the connection that resumed the session (it has no will of its own):
-	// "" it stays; disc0_clean / disc0_terminate: it disconnects normally and the session is then ended by a CONNECT with
+	// "" it stays; close: its socket is closed abruptly; disc0_clean / disc0_terminate: it disconnects normally and the session is then ended by a CONNECT with
 	// Clean Start 1 / by TerminateSession - the will of the FIRST connection has been decided long before and must not reappear
 	Then string `json:"then,omitempty"`
 }
@@ -86,10 +86,10 @@ func genC08(t *rapid.T) c08Scen {
 		case "takeover_clean", "takeover_resume", "terminate":
 			l.After = "none"
 		default:
-			l.After = rapid.SampledFrom([]string{"none", "none", "resume", "clean", "terminate"}).Draw(t, "after")
+			l.After = rapid.SampledFrom([]string{"none", "resume", "resume", "clean", "terminate"}).Draw(t, "after")
 			l.AfterMs = rapid.SampledFrom([]int{400, 1500, 2600}).Draw(t, "afterms")
 			if l.After == "resume" {
-				l.Then = rapid.SampledFrom([]string{"", "", "disc0_clean", "disc0_terminate"}).Draw(t, "then")
+				l.Then = rapid.SampledFrom([]string{"", "disc0_clean", "disc0_terminate", "close", "close"}).Draw(t, "then")
 			}
 		}
 		s.Lanes = append(s.Lanes, l)
@@ -377,6 +377,15 @@ func runC08(s c08Scen, c *ev.Case) *ev.Violation {
 				a1 := time.Now()
 				if l.After == "resume" && ack.SessionPresent {
 					reattach = &ival{a0, a1}
+					if l.Then == "close" {
+						// the resumed connection registered no will of its own; its socket just goes away. Whatever the first
+						// connection had registered was decided at the resume: nothing may be published for this one
+						c3.Kill()
+						if !waitClientGone(b, id) {
+							return fail(harnessErr("client %s still registered 5 s after its socket was closed", id))
+						}
+						o.labels = append(o.labels, "resumed_then_close")
+					}
 					if l.Then == "disc0_clean" || l.Then == "disc0_terminate" {
 						// the resumed connection leaves normally; then the stored session is ended from outside
 						_ = c3.Send(&mw.Packet{Type: mw.DISCONNECT})
